@@ -63,13 +63,17 @@ def kvOf (line : Bytes) : Bytes × Bytes :=
   | some kv => kv
   | none => (line, sTrue)
 
-def stepLine (safeKeys : List Bytes) (onlySafe : Bool) (st : State) (line : Bytes) : State :=
+def stepKV (safeKeys : List Bytes) (onlySafe : Bool) (st : State) (line : Bytes) : State :=
   match decide safeKeys onlySafe (kvOf line).1 with
   | .skip => st
   | .ignore => { st with ignored := st.ignored ++ [(kvOf line).1] }
   | .store => { st with vals := st.vals ++ [kvOf line] }
   | .storeExt n => { st with vals := st.vals ++ [kvOf line], exts := addUnique n st.exts }
   | .storeRemote n => { st with vals := st.vals ++ [kvOf line], remotes := addUnique n st.remotes }
+
+/-- an empty "line" (`git config -l` printed nothing: an empty file) is no key -/
+def stepLine (safeKeys : List Bytes) (onlySafe : Bool) (st : State) (line : Bytes) : State :=
+  if line.isEmpty then st else stepKV safeKeys onlySafe st line
 
 structure Source where
   lines : List Bytes
